@@ -199,7 +199,7 @@ theorem wrapped_limit (secs : UInt64) :
 /-! ### GetMaxValidity -/
 
 /-- `s` is the value of a MaxValidity caveat of the set, at any nesting depth -/
-def HasLimit (cs : List (Cav B)) (s : UInt64) : Prop := Nested (Cav.maxValidity s) cs
+def HasLimit (cs : List (Cav B)) (s : UInt64) : Prop := NestedIn (Cav.maxValidity s) cs
 
 /-- nesting, spelled out: a limit of the set is a member or a limit of the contents of a wrapper
 that is a member -/
@@ -309,7 +309,7 @@ theorem getMaxValidity_same_limits (cs cs' : List (Cav B))
 /-- in particular the order of the caveats does not matter -/
 theorem getMaxValidity_order_independent (cs cs' : List (Cav B)) (hp : cs.Perm cs') :
     getMaxValidity cs = getMaxValidity cs' :=
-  getMaxValidity_same_limits cs cs' fun _ => ⟨fun h => Nested.perm hp h, fun h => Nested.perm hp.symm h⟩
+  getMaxValidity_same_limits cs cs' fun _ => ⟨fun h => NestedIn.perm hp h, fun h => NestedIn.perm hp.symm h⟩
 
 /-! ### non-vacuity / sanity -/
 
